@@ -130,4 +130,16 @@ MUTANTS = [
      "        for validator in self.validators:\n            result = validator.validate_pre_sds_if_applicable(environment)",
      "        for validator in self.validators:\n            result = validator.validate_post_sds_if_applicable(environment)",
      'AndSdvValidator.validate_pre_sds_if_applicable : monitor['),
+    # ---- C06: each half of fix 35f7247 reverted
+    ('c06-revert-fix-35f7247-first-operand-mode', 'C06', 'exactly_lib/impls/types/expression/parser.py',
+     "        expression = self.parse_w_maybe_infix_ops(new_line_ignore,\n",
+     "        expression = self.parse_w_maybe_infix_ops(new_line_ignore is None,\n",
+     'bounded[integer-matcher _Parser.parse] C06-2: '),
+    ('c06-revert-fix-35f7247-operand-mode-inside-parentheses', 'C06', 'exactly_lib/impls/types/expression/parser.py',
+     "            next_operand = self.parse_w_maybe_infix_ops(\n"
+     "                _IS_INSIDE_PARENTHESES if is_inside_parens else _NEXT_EXPR_ON_ANY_LINE,\n"
+     "                infix_ops_levels)",
+     "            next_operand = self.parse_w_maybe_infix_ops(_NEXT_EXPR_ON_ANY_LINE,\n"
+     "                                                        infix_ops_levels)",
+     'bounded[integer-matcher _Parser.parse] C06-1: '),
 ]
